@@ -576,8 +576,6 @@ Section EVAL.
   (* add_function: reject an equal signature, then stable-sort guarded overloads first *)
   Definition eval_def (n : ast) : prog dloc :=
     let cl := make_def_closure n in
-    if existsb (fun t => negb (String.eqb t "")) (cl_ptypes cl) then unsup "typed parameters"
-    else
       let name := cl_name cl in
       fs <- Prim (PGetFuncs name) ;;
       match fs with
@@ -605,8 +603,6 @@ Section EVAL.
     let caps := a_children (child 0 n) in
     let params := a_children (child 1 n) in
     cs <- eval_captures caps [] ;;
-    if existsb (fun p => negb (String.eqb (arg_type p) "")) params then unsup "typed parameters"
-    else
     let this_cap := existsb (fun x => String.eqb (a_text (child 0 x)) "this") caps in
     new_value (OFun (FClosure (mkclosure "" (map arg_name params) (map arg_type params) (child 2 n) None cs this_cap))) false false.
 
@@ -631,10 +627,64 @@ Section EVAL.
       add_params (cl_params cl) args ;;;
       on_fail (Ev body) (fun f => match f with FRet d => Ret d | _ => Fail f end)).
 
-  (* Dynamic_Proxy_Function::do_call for one overload: None = does not apply (arity / guard) *)
+  (* ---- declared parameter types (Param_Types::match) *)
+  Definition script_type_of (o : option obj) : string :=
+    match o with
+    | Some (ONum tn _ _) =>
+        if String.eqb tn "uint" then "unsigned_int" else if String.eqb tn "ulong" then "unsigned_long" else if String.eqb tn "llong" then "long_long"
+        else if String.eqb tn "ullong" then "unsigned_long_long" else if String.eqb tn "ldouble" then "long_double" else tn
+    | Some (OBool _) => "bool" | Some (OStr _) => "string" | Some (OVec _) => "Vector" | Some (OMap _) => "Map"
+    | Some (OFun _) => "Function" | Some (ODyn _ _) => "Dynamic_Object" | Some OVoid => "void" | Some (OExc st _ _) => st | None => ""
+    end.
+  Definition arith_type_names : list string :=
+    ["int"; "double"; "float"; "long"; "long_double"; "unsigned_int"; "unsigned_long"; "long_long"; "unsigned_long_long"; "size_t"; "char";
+     "int8_t"; "int16_t"; "int32_t"; "int64_t"; "uint8_t"; "uint16_t"; "uint32_t"; "uint64_t"; "wchar_t"; "char16_t"; "char32_t"].
+  Definition known_type_names : list string :=
+    app arith_type_names ["bool"; "string"; "Vector"; "Map"; "Function"; "Dynamic_Object"; "Object"; "Number"].
+  Inductive pmatch := PMYes | PMNo | PMArith | PMUnsup.
+  Definition param_match (ptype : string) (o : option obj) : pmatch :=
+    if String.eqb ptype "" then PMYes
+    else match o with
+         | Some (ODyn cn _) => if String.eqb ptype "Dynamic_Object" || String.eqb ptype cn then PMYes else PMNo
+         | _ =>
+             if String.eqb ptype "Object" || String.eqb ptype "Number" || String.eqb ptype "size_t" then PMUnsup   (* Boxed_Value / Boxed_Number / a typedef: not modelled *)
+             else if existsb (String.eqb ptype) known_type_names then
+               if String.eqb (script_type_of o) ptype then PMYes
+               else if existsb (String.eqb ptype) arith_type_names && (match o with Some (ONum _ _ _) => true | _ => false end) then PMArith
+               else PMNo
+             else PMNo      (* an unregistered name (a script class): only objects of that class *)
+         end.
+  Fixpoint params_match (ptypes : list string) (objs : list (option obj)) : pmatch :=
+    match ptypes, objs with
+    | t :: tr, o :: or =>
+        match param_match t o, params_match tr or with
+        | PMNo, _ | _, PMNo => PMNo
+        | PMUnsup, _ | _, PMUnsup => PMUnsup
+        | PMArith, _ | _, PMArith => PMArith
+        | PMYes, PMYes => PMYes
+        end
+    | _, _ => PMYes
+    end.
+  (* dispatch(): the number of parameters whose declared Type_Info differs from the argument's (an untyped or class-typed parameter is a Boxed_Value) *)
+  Fixpoint num_diffs (ptypes : list string) (objs : list (option obj)) : nat :=
+    match ptypes, objs with
+    | t :: tr, o :: or =>
+        (if negb (String.eqb t "") && existsb (String.eqb t) known_type_names && String.eqb (script_type_of o) t then 0 else 1) + num_diffs tr or
+    | _, _ => 0
+    end.
+  Fixpoint objs_of (l : list dloc) : prog (list (option obj)) :=
+    match l with [] => Ret [] | d :: r => o <- obj_of d ;; os <- objs_of r ;; Ret (o :: os) end.
+
+  (* Dynamic_Proxy_Function::do_call for one overload: None = does not apply (arity / declared types / guard) *)
   Definition try_closure (cl : closure) (args : list dloc) : prog (option dloc) :=
     if negb (Nat.eqb (List.length args) (List.length (cl_params cl))) then Ret None
     else
+      os <- objs_of args ;;
+      match params_match (cl_ptypes cl) os with
+      | PMNo => Ret None
+      | PMArith => unsup "arithmetic conversion of an argument at dispatch"
+      | PMUnsup => unsup "parameter declared Object/Number/size_t"
+      | PMYes =>
       ok <- match cl_guard cl with
             | None => Ret true
             | Some g =>
@@ -647,13 +697,20 @@ Section EVAL.
                             | inr f => Fail f
                             end)
             end ;;
-      if ok : bool then d <- call_closure cl args (cl_body cl) ;; Ret (Some d) else Ret None.
+      if ok : bool then d <- call_closure cl args (cl_body cl) ;; Ret (Some d) else Ret None
+      end.
 
-  Fixpoint dispatch_closures (l : list closure) (args : list dloc) : prog (option dloc) :=
+  Fixpoint dispatch_in_order (l : list closure) (args : list dloc) : prog (option dloc) :=
     match l with
     | [] => Ret None
-    | cl :: r => x <- try_closure cl args ;; match x with Some d => Ret (Some d) | None => dispatch_closures r args end
+    | cl :: r => x <- try_closure cl args ;; match x with Some d => Ret (Some d) | None => dispatch_in_order r args end
     end.
+  (* dispatch(): candidates of the right arity, those with fewer differing parameter types first, table order within a group *)
+  Definition dispatch_closures (l : list closure) (args : list dloc) : prog (option dloc) :=
+    os <- objs_of args ;;
+    let right := filter (fun cl => Nat.eqb (List.length (cl_params cl)) (List.length args)) l in
+    let group i := filter (fun cl => Nat.eqb (num_diffs (cl_ptypes cl) os) i) right in
+    dispatch_in_order (flat_map group (seq 0 (S (List.length args)))) args.
 
   Definition call_single (cl : closure) (args : list dloc) (fname : string) : prog dloc :=
     if negb (Nat.eqb (List.length args) (List.length (cl_params cl))) then
@@ -671,7 +728,16 @@ Section EVAL.
         fs <- Prim (PGetFuncs name) ;;
         let builtin := existsb (String.eqb name) builtin_names in
         match fs, builtin with
-        | Some [cl], false => call_single cl args fname     (* a single overload is called directly, not through a Dispatch_Function wrapper *)
+        | Some [cl], false =>
+            (* a single overload is called directly — unless it declares an arithmetic parameter: add_function then wraps it in a
+               Dispatch_Function (for arithmetic conversions), and a refusal is a dispatch error *)
+            if existsb (fun t => existsb (String.eqb t) arith_type_names) (cl_ptypes cl) then
+              x <- dispatch_closures [cl] args ;;
+              match x with
+              | Some d => Ret d
+              | None => eval_error ("Error with function dispatch for function '" ++ name ++ "' with function '" ++ fname ++ "'")
+              end
+            else call_single cl args fname
         | _, _ =>
             x <- dispatch_closures (match fs with Some l => l | None => [] end) args ;;
             match x with
